@@ -22,9 +22,14 @@ type probe struct {
 	maxConc int
 	enters  []int64
 	exits   []int64
+	byTask  map[string]int // executions per calling task
 }
 
 func (p *probe) body() int {
+	if p.byTask == nil {
+		p.byTask = map[string]int{}
+	}
+	p.byTask[simrt.Self()]++
 	p.execs++
 	id := p.execs
 	p.running++
@@ -43,6 +48,7 @@ type callRec struct {
 	val         int
 	err         error
 	done        bool
+	executed    bool // the wrapped function ran inside this call
 }
 
 type wrapped struct {
@@ -159,10 +165,13 @@ func c15Concurrent(w *W) {
 		}
 		recs = append(recs, rs)
 		simrt.Spawn(fmt.Sprintf("caller%d:%s", c, f.name), func() {
+			me := simrt.Self()
 			for _, r := range rs {
+				before := p.byTask[me]
 				r.invoke = h.Tick()
 				r.val, r.err = f.call(w.Ctx, 1)
 				r.ret = h.Tick()
+				r.executed = p.byTask[me] > before
 				r.done = true
 			}
 		})
@@ -213,6 +222,15 @@ func c15Concurrent(w *W) {
 				for _, r := range rs {
 					if r.invoke > last && r.val != 100+limit {
 						w.Violate("limit-last-result", sig("limit-last-result"), "%s: a call made after the %d-th execution finished returned %d, want the last result %d", f.name, limit, r.val, 100+limit)
+					}
+					// a call that did not run the function returns "the last
+					// result": the result of the n-th execution, which does not
+					// exist before that execution has finished
+					if !r.executed && r.val != 100+limit {
+						w.Violate("limit-stale-result", sig("limit-stale-result"), "%s: a call [%d,%d] that did not execute the function returned %d; the last (%d-th) execution [%d,%d] produced %d", f.name, r.invoke, r.ret, r.val, limit, p.enters[limit-1], last, 100+limit)
+					}
+					if !r.executed && r.ret < last {
+						w.Violate("limit-returned-before-last", sig("limit-returned-before-last"), "%s: a call that did not execute the function returned at %d, before the last permitted execution finished at %d", f.name, r.ret, last)
 					}
 				}
 			}
